@@ -27,11 +27,14 @@ def run(module, fn, args, kwargs, params, twin):
     h.PARAMS.update(params)
     h.TWIN = twin
     h.LAST_FAIL = None
+    h.FAIL_KNOWN = []
+    h._KNOWN_STATE.clear()
     out = {}
     try:
         ret = getattr(mod, fn)(*args, **kwargs)
         out["ret"] = bool(ret)
         out["clause"] = h.LAST_FAIL
+        out["known"] = list(h.FAIL_KNOWN) if ret is False or not ret else []
     except Exception as e:  # noqa
         out["ret"] = None
         out["exc"] = "%s: %s" % (type(e).__name__, e)
